@@ -20,9 +20,18 @@ package proxy
 // The histories mix streamed and buffered client requests (body mix: mixed / stream-only /
 // buffered-only), pools with and without a Retry policy inside the breaker, and pools with a
 // time limit whose backend may hang (failure = timeout/408).
+//
+// The property quantifies the whole sentence over "cancellation at any point": in two thirds
+// of the histories some client requests are cancelled by their client — inside attempt k
+// (synchronously, or while that attempt hangs) or from another goroutine while Retry waits
+// for the back-off after attempt k.  Such a request ends with an error (every attempt it can
+// still make fails as well), and it is ONE client request: one outcome, a failure.
+// (TestVerif_C10_BreakerHalfOpen in c10_halfopen_test.go carries the same rule through the
+// breaker's OPEN -> HALF_OPEN -> CLOSED transitions.)
 
 import (
 	"fmt"
+	"math/rand"
 	"testing"
 
 	"verif.local/kit"
@@ -33,6 +42,58 @@ type c10BrkCase struct {
 	Pool     c10PoolCfg  `json:"pool"`
 	Requests [][]c10Step `json:"requests"`
 	Streams  []bool      `json:"streamBody"` // body mode of request q
+	// client cancellation of request q: "" none, "in-attempt" / "hanging-attempt" (the script
+	// holds a cancel / hangcancel step), "in-backoff" (another goroutine cancels right after
+	// attempt AsyncAfter[q] has returned)
+	Cancels    []string `json:"clientCancel"`
+	AsyncAfter []int    `json:"asyncCancelAfterAttempt"`
+}
+
+// c10CancelledScript makes the script of a client request that is cancelled by its client.
+// att = attempts this request may get (1: streamed body or no Retry policy), max = the
+// policy's maxAttempts.  Every attempt before and after the cancellation fails, so whatever
+// attempt turns out to be the last one made, the request ends with an error.
+func c10CancelledScript(rng *rand.Rand, att, max int, timeLimit bool, fail func() c10Step) (script []c10Step, mode string, asyncAfter int) {
+	modes := []string{"in-attempt"}
+	if !timeLimit {
+		modes = append(modes, "hanging-attempt")
+	}
+	if att >= 2 {
+		modes = append(modes, "in-backoff", "in-backoff")
+	}
+	mode, asyncAfter = modes[rng.Intn(len(modes))], -1
+	fails := func(n int) {
+		for j := 0; j < n; j++ {
+			script = append(script, fail())
+		}
+	}
+	switch mode {
+	case "in-attempt":
+		fails(rng.Intn(att))
+		script = append(script, c10Step{Kind: "cancel"})
+		fails(max + 2)
+	case "hanging-attempt":
+		fails(rng.Intn(att))
+		script = append(script, c10Step{Kind: "hangcancel"})
+		fails(max + 2)
+	case "in-backoff":
+		asyncAfter = rng.Intn(att - 1) // a back-off follows that attempt
+		fails(max + 2)
+	}
+	return
+}
+
+// c10CancelClass names the kinds of client cancellation among the requests counted so far.
+func c10CancelClass(inAttempt, inBackoff int) string {
+	switch {
+	case inAttempt > 0 && inBackoff > 0:
+		return "in-attempt+in-backoff"
+	case inAttempt > 0:
+		return "in-attempt"
+	case inBackoff > 0:
+		return "in-backoff"
+	}
+	return ""
 }
 
 func c10BodyMode(stream bool) string {
@@ -58,8 +119,8 @@ func c10History(nStream, nBuffered int) string {
 func TestVerif_C10_Breaker(t *testing.T) {
 	r := kit.Start(t, "C10")
 	defer r.Finish()
-	r.Rule("pool with a COUNT_BASED CircuitBreaker (window 50, minimumNumberOfCalls 2..6, failureRateThreshold 1 or 100) around a Retry policy (maxAttempts 2..4, wait 5..10 ms; omitted in 1 of 6 cases), in a third of the cases with a pool time limit of 10..30 ms and a backend that may hang; 6..12 client requests each with its own attempt script (fail..fail, fail..ok, ok; failure = failure code, network error or hang->timeout) and its own body mode: body mix mixed (each request streamed with probability 1/2), stream-only or buffered-only; reference counts ONE outcome (that of the last attempt made; a streamed body gets exactly one attempt) per client request whatever its body mode and predicts the first short-circuited request; distinct = (body mix, retry present, time limit present, M, T, maxAttempts, index of first short-circuited request, attempts before it, body mode of the request that opened the breaker)")
-	r.Assume("failureRateThreshold 1 and 100 make the integer failure rate unambiguous; slow-call threshold and wait-in-open are 1h so neither plays a role; a streamed body is a request whose payload was fetched with limit -1 (HTTPServer clientMaxBodySize -1)")
+	r.Rule("pool with a COUNT_BASED CircuitBreaker (window 50, minimumNumberOfCalls 2..6, failureRateThreshold 1 or 100) around a Retry policy (maxAttempts 2..4, wait 5..10 ms; omitted in 1 of 6 cases), in a third of the cases with a pool time limit of 10..30 ms and a backend that may hang; 6..12 client requests each with its own attempt script (fail..fail, fail..ok, ok; failure = failure code, network error or hang->timeout) and its own body mode: body mix mixed (each request streamed with probability 1/2), stream-only or buffered-only; in two thirds of the histories 30% or 50% of the client requests are cancelled by their client: inside attempt k (cancel step, or a hanging attempt cancelled from another goroutine) or from another goroutine during the back-off after attempt k, all other attempts of such a request fail; reference counts ONE outcome (that of the last attempt made; a streamed body gets exactly one attempt) per client request whatever its body mode and predicts the first short-circuited request; a client-cancelled request that ended with an error is one failure; distinct = (body mix, retry present, time limit present, M, T, maxAttempts, index of first short-circuited request, attempts before it, body mode of the request that opened the breaker, kinds of client cancellation counted)")
+	r.Assume("failureRateThreshold 1 and 100 make the integer failure rate unambiguous; slow-call threshold and wait-in-open are 1h so neither plays a role; a streamed body is a request whose payload was fetched with limit -1 (HTTPServer clientMaxBodySize -1); a client request that ends with an error after its client has cancelled it is a failed request (the outcome the client would see is 499 / the last attempt's failure)")
 
 	old := fnSendRequest
 	fnSendRequest = c10Transport
@@ -125,6 +186,21 @@ func TestVerif_C10_Breaker(t *testing.T) {
 			}
 			c.Streams = append(c.Streams, stream)
 		}
+		// client cancellation (drawn after everything else: the histories without it are the
+		// same as before this dimension existed)
+		pCancel := []int{0, 30, 50}[rng.Intn(3)]
+		for q := range c.Requests {
+			c.Cancels = append(c.Cancels, "")
+			c.AsyncAfter = append(c.AsyncAfter, -1)
+			if rng.Intn(100) >= pCancel {
+				continue
+			}
+			att := effMax
+			if c.Streams[q] {
+				att = 1
+			}
+			c.Requests[q], c.Cancels[q], c.AsyncAfter[q] = c10CancelledScript(rng, att, max, c.Pool.Timeout != "", fail)
+		}
 		r.Case(i, c)
 		p, err := c10NewProxy(&c.Pool)
 		if err != nil {
@@ -137,6 +213,9 @@ func TestVerif_C10_Breaker(t *testing.T) {
 		// the same book without the outcomes of streamed requests: only used to tell whether
 		// this history's opening DEPENDS on streamed outcomes (coverage, never a verdict)
 		recordedBuf, failuresBuf := 0, 0
+		// and the book without the outcomes of client-cancelled requests (coverage only)
+		recordedNC, failuresNC := 0, 0
+		nCancelAtt, nCancelBackoff := 0, 0
 		nStream, nBuffered := 0, 0
 		firstShort, attemptsBefore, openedBy := -1, 0, "none"
 		okCase := true
@@ -149,7 +228,7 @@ func TestVerif_C10_Breaker(t *testing.T) {
 		for q, script := range c.Requests {
 			stream := c.Streams[q]
 			mode := c10BodyMode(stream)
-			res := c10Do(p, script, stream, -1, c10PanicSite)
+			res := c10Do(p, script, stream, c.AsyncAfter[q], c10PanicSite)
 			r.Eval(1)
 			if res.Watchdog {
 				r.Inconclusive("harness watchdog (120 s) fired in breaker sequence")
@@ -163,8 +242,11 @@ func TestVerif_C10_Breaker(t *testing.T) {
 			}
 			// which kind of request, after which kinds of counted requests
 			where := ":request=" + mode + ":counted-before=" + c10History(nStream, nBuffered)
+			if cc := c10CancelClass(nCancelAtt, nCancelBackoff); cc != "" {
+				where += ":client-cancelled-counted-before=" + cc
+			}
 			det := func() map[string]interface{} {
-				return map[string]interface{}{"case": c, "request_index": q, "request_body": mode, "observed": res, "reference": map[string]interface{}{"recorded": recorded, "failures": failures, "open": open, "recorded_streamed": nStream, "recorded_buffered": nBuffered}}
+				return map[string]interface{}{"case": c, "request_index": q, "request_body": mode, "request_client_cancel": c.Cancels[q], "observed": res, "reference": map[string]interface{}{"recorded": recorded, "failures": failures, "open": open, "recorded_streamed": nStream, "recorded_buffered": nBuffered}}
 			}
 			short := res.Result == resultShortCircuited
 			if open {
@@ -224,6 +306,33 @@ func TestVerif_C10_Breaker(t *testing.T) {
 			if lastFailed {
 				failures++
 			}
+			// a request cancelled by its client: did the cancellation take place (a cancel
+			// from another goroutine may come too late: then it was an ordinary failing request)
+			cancelled := ""
+			switch c.Cancels[q] {
+			case "in-attempt", "hanging-attempt":
+				if last.Kind == "cancel" || last.Kind == "hangcancel" {
+					cancelled = c.Cancels[q]
+					nCancelAtt++
+				}
+			case "in-backoff":
+				if res.Cancelled && (m < effMax || res.Result == resultClientError) {
+					cancelled = c.Cancels[q]
+					nCancelBackoff++
+				}
+			}
+			if cancelled != "" {
+				r.Count("client_cancelled_requests_counted_by_reference_"+cancelled, 1)
+				r.Count("client_cancelled_requests_counted_by_reference_"+mode+"_body", 1)
+				if m > 1 {
+					r.Count("client_cancelled_requests_after_retries_inside_breaker", 1)
+				}
+			} else {
+				recordedNC++
+				if lastFailed {
+					failuresNC++
+				}
+			}
 			if stream {
 				nStream++
 				r.Count("stream_requests_counted_by_reference", 1)
@@ -245,7 +354,7 @@ func TestVerif_C10_Breaker(t *testing.T) {
 			}
 		}
 		if okCase {
-			r.Cover(fmt.Sprintf("breaker/%s/retry=%v/limit=%v/M%d/T%d/max%d/firstShort%d/attempts%d/openedBy=%s", c.BodyMix, c.Pool.Retry != nil, c.Pool.Timeout != "", c.Pool.Breaker.MinCalls, c.Pool.Breaker.Threshold, max, firstShort, attemptsBefore, openedBy))
+			r.Cover(fmt.Sprintf("breaker/%s/retry=%v/limit=%v/M%d/T%d/max%d/firstShort%d/attempts%d/openedBy=%s/cancelled=%s", c.BodyMix, c.Pool.Retry != nil, c.Pool.Timeout != "", c.Pool.Breaker.MinCalls, c.Pool.Breaker.Threshold, max, firstShort, attemptsBefore, openedBy, c10CancelClass(nCancelAtt, nCancelBackoff)))
 			r.Count("history_"+c.BodyMix, 1)
 			if c.Pool.Retry == nil {
 				r.Count("history_breaker_without_retry", 1)
@@ -261,6 +370,17 @@ func TestVerif_C10_Breaker(t *testing.T) {
 				}
 				if nStream > 0 && nBuffered > 0 {
 					r.Count("opening_after_mixed_history", 1)
+				}
+				if nCancelAtt+nCancelBackoff > 0 && !opens(recordedNC, failuresNC) {
+					// without the outcomes of the client-cancelled requests the breaker would
+					// not have opened at that request
+					r.Count("opening_depends_on_client_cancelled_outcomes", 1)
+					if nCancelAtt > 0 {
+						r.Count("opening_depends_on_outcomes_cancelled_in_attempt", 1)
+					}
+					if nCancelBackoff > 0 {
+						r.Count("opening_depends_on_outcomes_cancelled_in_backoff", 1)
+					}
 				}
 			}
 			if firstShort < 0 {
@@ -281,6 +401,11 @@ func TestVerif_C10_Breaker(t *testing.T) {
 		"opening_depends_on_streamed_outcomes", "opening_after_mixed_history",
 		"history_mixed", "history_stream-only", "history_buffered-only", "history_breaker_without_retry",
 		"timeout_408_inside_breaker_stream_body", "timeout_408_inside_breaker_buffered_body",
+		// client cancellation at every point, for both body modes, and deciding the opening
+		"client_cancelled_requests_counted_by_reference_in-attempt", "client_cancelled_requests_counted_by_reference_hanging-attempt",
+		"client_cancelled_requests_counted_by_reference_in-backoff", "client_cancelled_requests_after_retries_inside_breaker",
+		"client_cancelled_requests_counted_by_reference_stream_body", "client_cancelled_requests_counted_by_reference_buffered_body",
+		"opening_depends_on_client_cancelled_outcomes",
 	} {
 		r.Require(k, 1)
 	}
